@@ -19,6 +19,7 @@ structure Shape where
   overwrite : Bool := false
   nochanges : Bool := false
   pend : Nat := 0
+  realscp : Bool := false   -- Linux: scp is really executed (not the test short-cut)
 
 def linesOf (tr : List Ev) : List String :=
   tr.foldr (fun e acc => match e with | .sent _ ls => ls ++ acc | _ => acc) []
@@ -103,23 +104,32 @@ def showLike (l : String) : Bool :=
   l.startsWith "sh " || l.startsWith "show " || l == "write term" || l.startsWith "uname" || l.startsWith "hostname"
     || l.startsWith "grep" || l == "iptables-save" || l == "ip route show" || l.startsWith "which"
 
+def isScp (l : String) : Bool := l == "scp iptables" || l == "scp routing"
+
 def mkDev (b : Backend) (sh : Shape) (pos : Option Nat) (kind : String) : Dev := fun tr =>
   let http := b == .panos || b == .nsx
   -- console: reply g answers line g (reply 0 is the preamble); HTTP: reply g answers request g+1
   let g := if http then gotCount tr + 1 else gotCount tr
   let ls := linesOf tr
   let l := if g == 0 then "" else ls.getD (g - 1) ""
+  -- Linux: the copies of the start-up files are exchanges of their own (not console lines):
+  -- `scpfail_<file>` makes that copy fail; console positions count console lines only
+  if isScp l then
+    (if (kind == "scpfail_iptables" && l == "scp iptables") || (kind == "scpfail_routing" && l == "scp routing")
+     then { arr := .closed } else { flags := [] })
+  else
+  let gc := g - ((ls.take g).filter isScp).length
   let prev := if g < 2 then "" else ls.getD (g - 2) ""
   let polls := ((ls.take (g - 1)).filter (· == "show jobs")).length
-  let nice := niceReply b sh g l prev polls
+  let nice := niceReply b sh gc l prev polls
   -- the bytes `WARNING: …` are a notice in the reply to a configuration command and unexpected
   -- output in place of the output of a show command
   let kind := if kind == "warntext" && showLike l then "unexpected" else kind
   match pos with
   | none => nice
   | some p =>
-    if g == p then faultReply b kind nice g
-    else if g > p && !http then
+    if gc == p then faultReply b kind nice gc
+    else if gc > p && !http then
       (if kind == "silence" || kind == "truncated" then { arr := .silent }
        else if kind == "close" then { arr := .closed } else nice)
     else nice
